@@ -1127,7 +1127,9 @@ LEVEL_TEXT = ("Machine-checked proof (Coq) over an executable heap+cache state m
               "execute(content of the substrate, content of the rule, direction); fit is map of the single-substrate function with "
               "order-preserving first-occurrence de-duplication; batched clustering gives the one-shot partition; and over an executable model of "
               "SynCRN.build (task generation per step, chunked executor.map, integration into the event graph): the parallel build equals the serial "
-              "build for every rule list / configuration / worker count, and every integrated result carries the index of the rule that produced it. "
+              "build for every rule list / configuration / worker count — also over successive build calls on one object —, every integrated result "
+              "carries the index of the rule that produced it, and validate_smiles / dicts_balance_check return, for every worker count, the per-row "
+              "results of the single-row entry points in input order. "
               "The model is tied to the code by replaying the observed id()/deallocation trace of every generated run through the machine, and the "
               "serial run's (rule, mixture) -> products table of every network-expansion case through the build model (compared with the serial and "
               "the parallel runs with 1, 2, 3 workers on full event records).")
